@@ -171,6 +171,12 @@ class Lowering:
             return a == 0
         if rel == "!=":
             return a != 0
+        if rel == "apart":
+            # |n| > TIE_BAND: a thin band around a tie surface (narrower than what floating point can resolve) is left out
+            dl = z3.RealVal(TIE_BAND, self.ctx)
+            if z3.eq(b, self.ONE):
+                return z3.Or(a > dl, a < -dl)
+            return z3.Or((a - dl * b) * b > 0, (a + dl * b) * b < 0)
         raise ValueError(rel)
 
     def neq(self, x, y, normalise=False):
@@ -362,6 +368,9 @@ def cross_check(smt2, expected, timeout=60):
     out["agree"] = all(out[k] in (expected, "unknown", "timeout", "error") for k in ("z3_4.8.12", "cvc5_1.0.3"))
     out["confirmed_by"] = [k for k in ("z3_4.8.12", "cvc5_1.0.3") if out[k] == expected]
     return out
+
+
+TIE_BAND = "1/1000000000"
 
 
 def find_model(constraints_pc, *, neg_paths=(), timeout_ms=10000, monotone=True, prefer=None):
